@@ -21,6 +21,7 @@ import random
 import torch
 from torch import nn
 
+from .. import ride  # noqa: E402
 from .. import probes, zoo
 
 ID = "C14"
@@ -31,7 +32,7 @@ ASSUMPTIONS = ["dt >= dt_min (the user-chosen first trial is not a controller pr
                "stiff generators keep k*dt_min < 1 so explicit steps at dt_min are stable; a NaN assertion raised by the "
                "library on a blown-up explicit step is counted separately and not charged to the property",
                "logical termination bound 3*(T/dt_min)+100 trials; the wall-clock watchdog only yields 'inconclusive'"]
-REQUIRED_COUNTERS = ["trials", "rejected", "accepted", "dt_min_clamped_trials", "injected_cases", "natural_cases",
+REQUIRED_COUNTERS = ["ride_c14_trials", "ride_c14_rejected", "trials", "rejected", "accepted", "dt_min_clamped_trials", "injected_cases", "natural_cases",
                      "error_recomputed", "interpolated_outputs", "float32_cases", "clipped_final_trials", "grad_enabled_runs",
                      "extra_state_solver_runs", "adjoint_entry_runs", "backward_adaptive_solves", "backward_trials",
                      "backward_rejected", "float64_times_float32_state", "tensor_dt_and_dt_min"]
@@ -74,6 +75,7 @@ def cases(tier, seed):
         out.append({"key": f"nat{i}", "kind": "natural", "rseed": hash((seed, 1, i)) % (2 ** 31), "cost": 3})
     for i in range(n_inj):
         out.append({"key": f"inj{i}", "kind": "injected", "rseed": hash((seed, 2, i)) % (2 ** 31), "cost": 2})
+    out += ride.cases_for("C14", tier, seed)  # the repository's own tests under passive monitors
     return out
 
 
@@ -225,6 +227,8 @@ def check_trace(steps, errors, updates, t_start, t_end, dt, dt_min, rtol, atol, 
 
 
 def run_case(case):
+    if case.get("kind") == "ride":
+        return ride.run_case(case)
     import torchsde
     import warnings
     rng = random.Random(case["rseed"])
